@@ -53,6 +53,22 @@ static int add_integer(yaml_document_t *document, int value)
 }
 
 /*
+ * format_scalar: format a number into allocated memory
+ *   @bufp: address of pointer to receive the string (caller frees)
+ *   @format: printf format
+ */
+static int format_scalar(char **bufp, const char *format, ...)
+{
+    va_list ap;
+    int rc;
+
+    va_start(ap, format);
+    rc = vasprintf(bufp, format, ap);
+    va_end(ap);
+    return rc;
+}
+
+/*
  * add_double: add double scalar to the yaml_document_t
  *   @document: yaml document
  *   @value: real value
@@ -60,14 +76,23 @@ static int add_integer(yaml_document_t *document, int value)
  */
 static int add_double(yaml_document_t *document, double value, int precision)
 {
-    char buf[3 * sizeof(double) + 10];
+    char *buf = NULL;
     int tag;
 
     assert(precision >= 1);
-    (void)sprintf(buf, "%.*e", precision - 1, value);
-    if ((tag = yaml_document_add_scalar(document, NULL,
-		    (yaml_char_t *)buf, strlen(buf),
-		    YAML_ANY_SCALAR_STYLE)) == 0) {
+    if (precision == VNACAL_MAX_PRECISION) {
+	if (format_scalar(&buf, "%a", value) == -1) {
+	    return -1;
+	}
+    } else {
+	if (format_scalar(&buf, "%.*e", precision - 1, value) == -1) {
+	    return -1;
+	}
+    }
+    tag = yaml_document_add_scalar(document, NULL,
+	    (yaml_char_t *)buf, strlen(buf), YAML_ANY_SCALAR_STYLE);
+    free((void *)buf);
+    if (tag == 0) {
 	return -1;
     }
     return tag;
@@ -84,20 +109,25 @@ static int add_complex(yaml_document_t *document, double complex value,
 {
     double real = creal(value);
     double imag = cimag(value);
-    char buf[3 * sizeof(double complex) + 20];
+    char *buf = NULL;
     int tag;
 
     assert(precision >= 1);
     if (precision == VNACAL_MAX_PRECISION) {
-	(void)sprintf(buf, "%+a %+aj", real, imag);
+	if (format_scalar(&buf, "%+a %+aj", real, imag) == -1) {
+	    return -1;
+	}
     } else {
-	(void)sprintf(buf, "%+.*e %+.*ej",
-		precision - 1, real,
-		precision - 1, imag);
+	if (format_scalar(&buf, "%+.*e %+.*ej",
+		    precision - 1, real,
+		    precision - 1, imag) == -1) {
+	    return -1;
+	}
     }
-    if ((tag = yaml_document_add_scalar(document, NULL,
-		    (yaml_char_t *)buf, strlen(buf),
-		    YAML_ANY_SCALAR_STYLE)) == 0) {
+    tag = yaml_document_add_scalar(document, NULL,
+	    (yaml_char_t *)buf, strlen(buf), YAML_ANY_SCALAR_STYLE);
+    free((void *)buf);
+    if (tag == 0) {
 	return -1;
     }
     return tag;
